@@ -15,6 +15,10 @@ int cmd_kpk_table(const Args&);
 int cmd_polyglot_replay(const Args&);
 int cmd_polyglot_walk(const Args&);
 int cmd_book_replay(const Args&);
+int cmd_time_replay(const Args&);
+int cmd_eval_mirror(const Args&);
+int cmd_eval_pure(const Args&);
+int cmd_eval_cache_replay(const Args&);
 }
 
 #ifdef VH_EXTRA_DECLS
@@ -40,5 +44,9 @@ int main(int argc, char** argv)
     if (cmd == "polyglot-replay") return vh::cmd_polyglot_replay(a);
     if (cmd == "polyglot-walk") return vh::cmd_polyglot_walk(a);
     if (cmd == "book-replay") return vh::cmd_book_replay(a);
+    if (cmd == "time-replay") return vh::cmd_time_replay(a);
+    if (cmd == "eval-mirror") return vh::cmd_eval_mirror(a);
+    if (cmd == "eval-pure") return vh::cmd_eval_pure(a);
+    if (cmd == "eval-cache-replay") return vh::cmd_eval_cache_replay(a);
     return vh_dispatch_extra(cmd, a);
 }
